@@ -14,6 +14,7 @@ import (
 // before the engine can observe it, an event that REQUIRES a permission is
 // appended after it was observed.
 const (
+	EvSrcNew      = "src.new"      // a source plugin instance was dispensed (before any call on it)
 	EvSrcOpen     = "src.open"     // Pos = position the plugin was opened with
 	EvSrcEmit     = "src.emit"     // one per record, appended before the batch is handed to the engine
 	EvSrcAck      = "src.ack"      // one per position, appended after the plugin received it
